@@ -111,12 +111,14 @@ class Cnl2asp:
         return None
 
     def cnl_to_json(self):
+        Utility.AUTO_ENTITY_LINK = True
         problem = self.parse_input()
         converter = Cnl2jsonConverter()
         json = problem.convert(converter)
         return json
 
     def check_syntax(self) -> bool:
+        Utility.AUTO_ENTITY_LINK = True
         if self.parse_input():
             return True
         return False
